@@ -473,6 +473,8 @@ func diagnose(c Case, variant, kind, minified string, r runResult) string {
 		return "method / accessor / class-field name equal to a local is renamed"
 	case hit("in-param-default") || hit("in-pattern-default"):
 		return "identifier in a parameter or pattern default value is collected as a local"
+	case hit("pattern-key"):
+		return "property key of a destructuring pattern {key: alias} is collected as a local"
 	case hit("toplevel-block-var"):
 		return "var inside a top-level block is treated as a local"
 	case hit("label"):
